@@ -36,10 +36,20 @@ def check(case, ctx):
     if GR.touch_sibling(g.no, g.choice):
         ctx.event("sibling-setting-used-first")
     np.random.seed(case["npseed"])
-    U4 = np.asarray(mod.genhkl_unique(B.cell, B.smin, B.smax, output_stl=True, **B.kw), float)
-    U3 = np.asarray(mod.genhkl_unique(B.cell, B.smin, B.smax, **B.kw), float)
-    A4 = np.asarray(mod.genhkl_all(B.cell, B.smin, B.smax, output_stl=True, **B.kw), float)
-    A3 = np.asarray(mod.genhkl_all(B.cell, B.smin, B.smax, **B.kw), float)
+    # history: an earlier identical call whose returned arrays the caller then overwrote in place
+    if case.get("pick", 0) < 0.5:
+        for fn in (mod.genhkl_unique, mod.genhkl_all):
+            for ostl in (True, False):
+                r0 = fn(B.cell_arg, B.smin, B.smax, output_stl=ostl, **B.kw)
+                try:
+                    r0[...] = -7.0
+                except Exception:
+                    pass
+        ctx.event("earlier-identical-call-result-overwritten")
+    U4 = np.asarray(mod.genhkl_unique(B.cell_arg, B.smin, B.smax, output_stl=True, **B.kw), float)
+    U3 = np.asarray(mod.genhkl_unique(B.cell_arg, B.smin, B.smax, **B.kw), float)
+    A4 = np.asarray(mod.genhkl_all(B.cell_arg, B.smin, B.smax, output_stl=True, **B.kw), float)
+    A3 = np.asarray(mod.genhkl_all(B.cell_arg, B.smin, B.smax, **B.kw), float)
     desc = "%s(%r, %r, %r, %r)" % (case["mod"], B.cell, B.smin, B.smax, B.kw)
     for name, M, w in (("unique+stl", U4, 4), ("unique", U3, 3), ("all+stl", A4, 4), ("all", A3, 3)):
         if M.ndim != 2 or M.shape[1] != w:
